@@ -125,7 +125,7 @@ BSPartitionOfUnity(m) == \A r \in 1..Len(m) : RSum(m[r]) = R(1)
 
 (* ------------------------------ BSpline._initialize as a decision table --- *)
 \* parameters: df (-1 = None), nk number of knots given (-1 = None), degree, degree_is_int, df_is_int,
-\* intercept, bounds_ok (lower <= upper), knots_inside (all given knots within the bounds)
+\* intercept, bounds_ok (lower <= upper), knots_inside (all knots - given, or derived from the data as percentiles - within the bounds)
 \* Abs: what the statement demands
 BSDecisionAbs(p) ==
   IF ~p.degree_is_int \/ p.degree < 0 THEN "refuse"
